@@ -12,6 +12,7 @@ An obligation is every site that can panic, overflow, index out of bounds, or al
 the abstract state proves it safe, *alarmed* when it may fail and the failing operand (or the branch leading to an
 explicit panic) is tainted.  Untainted imprecision never raises an alarm.
 """
+import os
 import re
 from collections import defaultdict
 
@@ -206,10 +207,11 @@ CF = "core::ops::control_flow::ControlFlow"
 class Analyzer:
     def __init__(self, prog, max_depth=10, opaque=None, taint_params=None, path_limit=20000):
         self.prog = prog
-        self.max_depth = max_depth
+        # thorough tier (bin/wfcheck): deeper inlining and a larger path budget
+        self.max_depth = max_depth + int(os.environ.get("WF_E4_DEPTH_BONUS", "0") or 0)
         self.memo = {}
         self.opaque = opaque or (lambda fn: False)
-        self.path_limit = path_limit
+        self.path_limit = path_limit * int(os.environ.get("WF_E4_PATH_FACTOR", "1") or 1)
         self.stats = defaultdict(int)
         self.undecided = {}
         self.split_shifts = False
